@@ -122,6 +122,10 @@ def main():
         for it in range(40 if thorough else 12):
             n = rng.choice([1, 2, 5, 17, 40, 120])
             data = bytes(rng.choice(b"ab\r\n\xd3$xyz\x00") if rng.random() < 0.5 else rng.getrandbits(8) for _ in range(n))
+            if it % 4 == 1:      # a plain stream joined in the middle of a sentence: begins like a chunk-size line (hex digits, CRLF)
+                data = (rng.choice([b"0E\r\n", b"a\r\n", b"1f4\r\n", b"0\r\n\r\n", b"7B\r\n$GP"]) + data)[:max(n, 6)]
+                n = len(data)
+                em.count("plain.starts-like-chunk-size-line")
             ops_sets = [[1] * (n + 3), [rng.choice([0, 1, 2, 3, 5, 8, 13, -1]) for _ in range(rng.randrange(1, 25))], [n], [n + 1, n, 1], [-1] * 6]
             parts = [[data], [data[i:i + 1] for i in range(n)]]
             if n <= 17:
@@ -210,6 +214,34 @@ def main():
             for _ in range(6):
                 t = [bytes(rng.choice(b"ab\r\n01f") for _ in range(rng.randrange(1, 30))) for _ in range(rng.randrange(1, 5))]
                 bodies.append((t, rng.choice([1, 1, 3, 5, 9]), rng.random() < 0.7, rng.random() < 0.5, False))
+        # chunk sizes around every change in the number of hex digits of the size line (1..5 digits), one body per boundary
+        big = []
+        for sz in ((15, 16, 255, 256, 4095, 4096, 65535, 65536, 70001) if thorough else (16, 256, 4096, 65536)):
+            big.append(([b"ab", bytes(rng.getrandbits(8) for _ in range(sz)), b"tail"], 1, True, sz % 2 == 0, False))
+        big.append(([bytes(rng.choice(b"abc") for _ in range(66000)), b"z"], 3, True, False, False))      # compressed size small, plain size large
+        for chunks, enc, last, upper, lz in big:
+            s, table = chunk_body(rng, chunks, enc, last, upper, lz)
+            want = b"".join(chunks)
+            n = len(s)
+            h = len(("%x" % len(table[1][0])).encode()) + 2 + 7     # end of the big chunk's size line, relative to the start of the stream
+            for cuts in [(), (8,), (h - 1,), (h,), (h + 1, n - 9), (3, h - 2, n // 2), tuple(range(4096, n, 4096))]:
+                cuts = tuple(c for c in sorted(set(cuts)) if 0 < c < n)
+                segs = partitions(s, cuts)
+                for bs in (4096, 100000):
+                    em.count("bigchunk.%d" % len(chunks[1] if len(chunks) > 2 else chunks[0]))
+                    em.direct_evaluations += 1
+                    if cuts in ((), (h,)) and bs == 4096:
+                        outs, buf = add_case(em, p, True, enc, table, segs, [len(want), 1], "chunked body with a %d-byte chunk cut at %s" % (len(table[1][0] if len(table) > 2 else table[0][0]), list(cuts)[:4]), bufsize=bs)
+                    else:
+                        try:
+                            with vlib.watchdog(20):
+                                outs, buf = run_ops(p, segs, [len(want), 1], encoding=enc, bufsize=bs)
+                        except BaseException as e:  # noqa
+                            outs, buf = None, b""
+                    got = None if outs is None else b"".join(outs) + buf
+                    if got != want:
+                        em.violation("C12: a body with a large chunk is not delivered as the concatenation of its chunks (%s of %d bytes delivered)" % ("nothing" if got is None else len(got), len(want)),
+                                     {"segments": [x.hex() for x in segs], "encoding": enc, "bufsize": bs, "ops": [len(want), 1]}, {})
         for chunks, enc, last, upper, lz in bodies:
             s, table = chunk_body(rng, chunks, enc, last, upper, lz)
             want = b"".join(chunks)
